@@ -956,9 +956,11 @@ impl GlobalInferenceCtx<'_> {
             for usage in usages.iter() {
                 let ty = match usage {
                     ScopeUsage::Expr(expr) => match ctx.bodies[*expr] {
+                        // if the operand isn't an optional or an error union, that has already
+                        // been reported as an error
                         hir::Expr::Propagate { expr, .. } => ctx.tys[ctx.loc][expr]
                             .propagated_ty()
-                            .expect("there should be a propagated type"),
+                            .unwrap_or_else(|| Ty::Unknown.into()),
                         _ => unreachable!(),
                     },
                     ScopeUsage::Stmt(stmt) => match ctx.bodies[*stmt] {
